@@ -208,7 +208,10 @@ impl Resolver<'_> {
     }
 
     fn resolve_ident_wildcard(&mut self, ident: &Ident) -> Result<Ident, String> {
-        let ident_self = ident.clone().pop().unwrap() + Ident::from_name(NS_SELF);
+        let Some(relation) = ident.clone().pop() else {
+            return Err(format!("Unknown relation for wildcard {ident}"));
+        };
+        let ident_self = relation + Ident::from_name(NS_SELF);
         let mut res = self.root_mod.module.lookup(&ident_self);
         if res.contains(&ident_self) {
             res = HashSet::from_iter([ident_self]);
